@@ -4,6 +4,7 @@ import (
 	"context"
 	"fmt"
 	"os"
+	"sort"
 	"strings"
 	"sync"
 	"testing"
@@ -1273,7 +1274,7 @@ func TestMergeScale(t *testing.T) {
 	c08 := ev.For("C08").SetRule(c08Rule)
 	c09 := ev.For("C09").SetRule(c09Rule)
 	rapid.Check(t, func(t *rapid.T) {
-		shape := rapid.SampledFrom([]string{"many-children", "slow-ok", "deep-count"}).Draw(t, "shape")
+		shape := rapid.SampledFrom([]string{"many-children", "slow-ok", "deep-count", "many-children-ok"}).Draw(t, "shape")
 		if (shape == "many-children") != mergeFocus("C08") && os.Getenv("VERIF_FOCUS") != "" {
 			// the other property's share of this test
 			if mergeFocus("C08") {
@@ -1337,6 +1338,67 @@ func TestMergeScale(t *testing.T) {
 			must(rig.close())
 			c08.Label("scale:many-children")
 			c08.Case(n > 64, hx.JSON(desc), func() any { return desc })
+		case "many-children-ok":
+			// 12-70 children answer one EVENT in a generated order, several of them rejecting with
+			// reasons of their own: the text begins with the reason of the first rejecting child
+			// (lowest index, or earliest in time)
+			n := rapid.SampledFrom([]int{12, 13, 14, 16, 20, 33, 65, 70}).Draw(t, "children")
+			desc["children"] = n
+			rig = newMergeRig(n)
+			e := &mocrelay.Event{Pubkey: authors[0], Kind: 1, CreatedAt: 1000, Tags: []mocrelay.Tag{}, Content: "many children"}
+			gen.Seal(e)
+			must(rig.clientSend(&mocrelay.ClientEventMsg{Event: e}))
+			for i := 0; i < n; i++ {
+				_, err := rig.childRecv(i)
+				must(err)
+			}
+			rejecting := map[int]bool{}
+			for i := 0; i < n; i++ {
+				if rapid.IntRange(0, 2).Draw(t, fmt.Sprint("rejects", i)) == 0 {
+					rejecting[i] = true
+				}
+			}
+			order := rapid.Permutation(intRange(n)).Draw(t, "answer_order")
+			desc["answer_order"], desc["rejecting"] = order, sortedInts(rejecting)
+			prefixes := []string{"invalid: ", "pow: ", "blocked: ", "rate-limited: ", "error: ", ""}
+			reason := func(i int) (string, string) { return prefixes[i%len(prefixes)], fmt.Sprint("child", i, " says no") }
+			firstByTime := -1
+			for k, i := range order {
+				acc := !rejecting[i]
+				pfx, msg := "", ""
+				if !acc {
+					pfx, msg = reason(i)
+					if firstByTime < 0 {
+						firstByTime = i
+					}
+				}
+				out, err := rig.childEmit(i, mocrelay.NewServerOKMsg(e.ID, acc, pfx, msg))
+				must(err)
+				if k < n-1 {
+					if len(out) != 0 {
+						fail("C09", "ok-early", "no OK before every child has answered the request", hx.JSON(briefServers(out)))
+					}
+					continue
+				}
+				if len(out) != 1 {
+					fail("C09", "ok-missing", "every EVENT is answered by exactly one OK (when the last child answered)", hx.JSON(briefServers(out)))
+				}
+				o, is := out[0].(*mocrelay.ServerOKMsg)
+				if !is || o.EventID != e.ID || o.Accepted != (len(rejecting) == 0) {
+					fail("C09", "ok-verdict", "the aggregated OK carries the event's id and accepts iff every child accepted", hx.JSON(briefServers(out)))
+				}
+				if len(rejecting) > 0 {
+					firstByIndex := sortedInts(rejecting)[0]
+					pa, ma := reason(firstByIndex)
+					pb, mb := reason(firstByTime)
+					if !strings.HasPrefix(o.Message(), pa+ma) && !strings.HasPrefix(o.Message(), pb+mb) {
+						fail("C09", "ok-reason", "a rejection's text begins with the first rejecting child's reason", fmt.Sprintf("%q; first rejecting child by index %d, by time %d", o.Message(), firstByIndex, firstByTime))
+					}
+				}
+			}
+			must(rig.close())
+			c09.Label("scale:many-children-ok")
+			c09.Case(n > 12, hx.JSON(desc), func() any { return desc })
 		case "slow-ok":
 			k := rapid.SampledFrom([]int{300, 1023, 1024, 1025, 1100, 2100}).Draw(t, "others")
 			desc["events_while_one_waits"] = k
@@ -1455,6 +1517,15 @@ func TestMergeScale(t *testing.T) {
 			c09.Case(k > 8, hx.JSON(desc), func() any { return desc })
 		}
 	})
+}
+
+func sortedInts(m map[int]bool) []int {
+	out := make([]int, 0, len(m))
+	for k := range m {
+		out = append(out, k)
+	}
+	sort.Ints(out)
+	return out
 }
 
 func intRange(n int) []int {
